@@ -1,5 +1,8 @@
 """C01  Every parse result is a valid derivation of the user's grammar (ak/llparser.py)"""
+import json
+import os
 import random
+import re
 
 from harness.lib import sx as SX
 from harness.props import llp_common as L
@@ -7,8 +10,8 @@ from harness.props import llp_common as L
 ID = "C01"
 COQ_DIR = "C01"
 EXTRA_COQ_DIRS = ["LLP"]
-RUN_MOD = L.RUN_MOD
-MODEL_TARGETS = ["C01/Run.vo"]
+RUN_MOD = "C01.RunTok"        # extends C01.Run (shared with C02/C03) by sessions and texts
+MODEL_TARGETS = ["C01/Run.vo", "C01/RunTok.vo"]
 PROOF_TARGETS = ["C01/Basics.vo", "C01/Lemmas.vo", "C01/LemmasFact.vo", "C01/LemmasTable.vo", "C01/FactList.vo", "C01/FactExp.vo",
                  "C01/FactProps.vo", "C01/FactAll.vo", "C01/FactSmart1.vo", "C01/FactSmart2.vo", "C01/FactSmart3.vo", "C01/FactSmart4.vo",
                  "C01/FactFuel.vo", "C01/LemmasTop.vo"]
@@ -141,6 +144,690 @@ def search_cases(rng, tier):
                 g = _mutate_for_c01(rng, g)
         cases.append({"g": g, "inputs": L.gen_inputs(rng, g, 12)})
     return cases
+
+
+# ------------------------------------------------------------------ sessions: texts, tokenizer configurations, parser reuse
+# A session case:
+#   {"kind": "session", "g": grammar, "cfg": tokenizer configuration or None (plain tokenizer of llp_common),
+#    "texts": [{"text": str, "toks": [[name, value], ...] | None}],     toks = the NON-SKIPPED tokens the generator rendered the
+#                                                                       text from (None: the text contains a foreign character)
+#    "calls": [[text index, start_symbol_name | None], ...]             parse() calls made in this order on ONE parser object
+#    "second": {"smart": b, "start": s, "calls": [...]} | None          a second parser made from the SAME productions / synonyms /
+#                                                                       keywords objects after the first one was used
+# The expected tokens never come from the library's tokenizer.
+HELPER_START_SIG = "helper-start-symbol-per-call"
+
+
+def _pattern_of(entry):
+    name, kind, arg = entry
+    if kind == "lit":
+        return f"(?P<{name}>{re.escape(arg)})"
+    if kind == "range":
+        return f"(?P<{name}>[{arg[0]}-{arg[1]}]+)"
+    if kind == "space":
+        return f"(?P<{name}>\\s+)"
+    if kind == "eol":
+        return f"(?P<{name}>{re.escape(arg)}.*)"
+    if kind == "quoted":
+        q = re.escape(arg)
+        return f"{q}(?P<{name}>[^{q}]*){q}"
+    raise ValueError(kind)
+
+
+def _tok_str(cfg):
+    return "\n|".join(_pattern_of(e) for e in cfg["lex"])
+
+
+def _span_matchers(cfg):
+    return {g: "(?P<BODY>(?s:.*?))" + re.escape(closer) for g, closer in cfg["spans"]}
+
+
+def _cfg_terminals(cfg):
+    """the token names of the configuration as the documentation of LLParser defines them: pattern groups, renamed by
+    synonyms, plus the keyword tokens"""
+    syn = dict(cfg["syn"])
+    t = set(e[0] for e in cfg["lex"]) - set(syn)
+    t |= set(syn.values())
+    t |= set(k[2] for k in cfg["kw"])
+    return sorted(t)
+
+
+def _cfg_skipset(cfg):
+    if cfg["skip"] is None:
+        terms = _cfg_terminals(cfg)
+        return [t for t in ["SPACE", "COMMENT"] if t in terms]
+    return list(cfg["skip"])
+
+
+def _gen_tokcfg(rng):
+    """-> (cfg, info); info["prod"]: final token name -> [[lexeme, value, needs_line_break_after], ...] -- what the generator
+    knows about the lexicon BY CONSTRUCTION (which class a lexeme belongs to, what it is renamed to, which (class, value)
+    pairs are keywords)"""
+    lex, syn, kw, spans = [], [], [], []
+    prod = {}
+
+    def add(name, lexeme, value=None, eol=False):
+        prod.setdefault(name, []).append([lexeme, lexeme if value is None else value, eol])
+
+    # white space: group SPACE, or a group WS that is (or is not) renamed to SPACE
+    r = rng.random()
+    if r < 0.6:
+        lex.append(["SPACE", "space", ""])
+        space = "SPACE"
+    elif r < 0.9:
+        lex.append(["WS", "space", ""])
+        syn.append(["WS", "SPACE"])
+        space = "SPACE"
+    else:
+        lex.append(["WS", "space", ""])
+        space = "WS"
+    # words: two pattern groups; both / one / none renamed to WORD
+    wm = rng.choice(["both", "both", "lower", "plain"])
+    if wm == "both":
+        lg, ug, ln, un = "LW", "UW", "WORD", "WORD"
+        syn += [["LW", "WORD"], ["UW", "WORD"]]
+    elif wm == "lower":
+        lg, ug, ln, un = "LW", "UW", "WORD", "UW"
+        syn += [["LW", "WORD"]]
+    else:
+        lg, ug, ln, un = "WORD", "UW", "WORD", "UW"
+    lex += [[lg, "range", "az"], [ug, "range", "AZ"]]
+    lower_kw, upper_kw = {}, {}
+    for v, k in (("if", "IF"), ("end", "END")):
+        if rng.random() < 0.65:
+            kw.append([ln, v, k])
+            lower_kw[v] = k
+    if rng.random() < 0.4:
+        kw.append([un, "IF", "IF"])
+        upper_kw["IF"] = "IF"
+    if un == ln:
+        lower_kw.update(upper_kw)
+        upper_kw = dict(lower_kw)
+    # decoys: entries keyed by a pattern group name that is renamed never apply (keywords are keyed by TOKEN names)
+    if lg != ln:
+        if rng.random() < 0.6:
+            kw.append([lg, "while", "WHILE"])
+        if rng.random() < 0.3:
+            kw.append([lg, "if", "LIF"])
+    if ug != un and rng.random() < 0.3:
+        kw.append([ug, "FOO", "UFOO"])
+    for v in ["a", "ab", "foo", "x", "zz", "while", "if", "end"]:
+        add(lower_kw.get(v, ln), v)
+    for v in ["A", "FOO", "XY", "IF", "END"]:
+        add(upper_kw.get(v, un), v)
+    # numbers
+    if rng.random() < 0.65:
+        ng, nn = "NUM", "NUM"
+    else:
+        ng, nn = "DIG", "NUM"
+        syn.append(["DIG", "NUM"])
+    lex.append([ng, "range", "09"])
+    num_kw = {}
+    if rng.random() < 0.4:
+        kw.append([nn, "0", "ZERO"])
+        num_kw["0"] = "ZERO"
+    if ng != nn and rng.random() < 0.4:
+        kw.append([ng, "7", "SEVEN"])          # decoy
+    for v in ["0", "7", "12", "345"]:
+        add(num_kw.get(v, nn), v)
+    # quoted strings: the value excludes the quotes
+    if rng.random() < 0.7:
+        sm = rng.choice(["both", "dq", "plain"])
+        dn, sn = "DQ", "SQ"
+        if sm in ("both", "dq"):
+            syn.append(["DQ", "STRING"])
+            dn = "STRING"
+        if sm == "both":
+            syn.append(["SQ", "STRING"])
+            sn = "STRING"
+        lex += [["DQ", "quoted", '"'], ["SQ", "quoted", "'"]]
+        dkw = {}
+        if rng.random() < 0.5:
+            kw.append([dn, "x y", "XY"])
+            dkw["x y"] = "XY"
+        if dn != "DQ" and rng.random() < 0.4:
+            kw.append(["DQ", "x", "DQX"])      # decoy
+        skw = dkw if sn == dn else {}
+        for v in ["", "x", "x y", "a+b", "if"]:
+            add(dkw.get(v, dn), '"' + v + '"', v)
+        for v in ["", "q", "x y", "if"]:
+            add(skw.get(v, sn), "'" + v + "'", v)
+    # one-character literals, renamed to themselves or not; '+' may be a keyword of its own class
+    for g, ch in (("PLUS", "+"), ("SEMI", ";"), ("LP", "("), ("RP", ")")):
+        if rng.random() < 0.7:
+            lex.append([g, "lit", ch])
+            n = g
+            if rng.random() < 0.5:
+                syn.append([g, ch])
+                n = ch
+            if g == "PLUS" and rng.random() < 0.25:
+                kw.append([n, "+", "ADD"])
+                add("ADD", "+")
+            else:
+                add(n, ch)
+    # comments: to the end of the line, and a span token
+    comment_names = []
+    if rng.random() < 0.7:
+        marker = rng.choice(["//", "#"])
+        cg = rng.choice(["COMMENT", "REM"])
+        lex.append([cg, "eol", marker])
+        cn = cg
+        if cg == "REM" and rng.random() < 0.7:
+            syn.append(["REM", "COMMENT"])
+            cn = "COMMENT"
+        for c in ["", " c", " x y", " if"]:
+            add(cn, marker + c, eol=True)
+        comment_names.append(cn)
+    if rng.random() < 0.5:
+        lex.append(["CML", "lit", "/*"])
+        spans.append(["CML", "*/"])
+        mn = "CML"
+        if rng.random() < 0.6:
+            syn.append(["CML", "COMMENT"])
+            mn = "COMMENT"
+        if rng.random() < 0.4:
+            kw.append([mn, "if", "SPANKW"])    # decoy: keywords are not applied to span tokens
+        # (lexeme, value): the value is the body; the text of a line after the opener and of whole lines inside is taken
+        # from the rstripped lines, blank parts are dropped
+        for lx, v in (("/* c */", " c "), ("/**/", ""), ("/*c\nd*/", "c\nd"), ("/*\nq */", "q "), ("/*if*/", "if")):
+            add(mn, lx, v)
+        comment_names.append(mn)
+    rng.shuffle(lex)
+    cfg = {"lex": lex, "spans": spans, "syn": syn, "kw": kw, "skip": None}
+    terms = _cfg_terminals(cfg)
+    default = [t for t in ["SPACE", "COMMENT"] if t in terms]
+    subst = sorted(n for n in prod if n not in default and n != space and n not in comment_names)
+    r = rng.random()
+    if r < 0.5:
+        skip = None
+    elif r < 0.6:
+        skip = list(default) + ([space] if space not in default else [])
+    elif r < 0.8:
+        skip = list(default) + ([space] if space not in default else []) + [rng.choice(subst)]
+    elif r < 0.9:
+        skip = [space]                                   # comments are terminals of the grammar
+    elif r < 0.96:
+        skip = [t for t in default if t != space]        # white space is NOT skipped ([] or [COMMENT])
+    else:
+        renamed = [a for a, b in syn if a not in terms]
+        skip = list(default) + ([rng.choice(renamed)] if renamed else [])   # a pattern group name that is no token name: GrammarError
+    cfg["skip"] = skip
+    info = {"prod": prod, "space": space, "comments": comment_names, "skipset": _cfg_skipset(cfg),
+            "bases": {"lower": (ln, lower_kw), "upper": (un, upper_kw), "num": (nn, num_kw)}}
+    return cfg, info
+
+
+def _char_class(c):
+    if c.islower():
+        return "l"
+    if c.isupper():
+        return "u"
+    if c.isdigit():
+        return "d"
+    return c
+
+
+def _glue_ok(a, b):
+    """may lexeme b follow lexeme a without a separator so that they stay the same two tokens"""
+    if a[-1] in "/*#" or b[0] in "/*#":
+        return False
+    return _char_class(a[-1]) != _char_class(b[0])
+
+
+def _render(rng, info, items):
+    """items: [[name, value, lexeme, eol], ...] -> (text, all tokens [[name, value], ...] in order, white space and
+    comments included where they are tokens of the text)"""
+    skip = set(info["skipset"])
+    space = info["space"]
+    space_skipped = space in skip
+    prod = info["prod"]
+    skipped_comments = [(n, e) for n in info["comments"] if n in skip for e in prod.get(n, [])]
+    out, full = [], []
+    need_nl = False
+
+    def ws(choices):
+        s = rng.choice(choices)
+        if not space_skipped and s.strip("\n"):
+            raise AssertionError("white space token in a text whose white space is not skipped")
+        return s
+
+    def separator(prev, nxt, first):
+        nonlocal need_nl
+        pieces = []
+        if space_skipped:
+            if need_nl:
+                pieces.append(rng.choice(["\n", "\n  ", " \n", "\n\n", "\t\n "]))
+            elif first:
+                pieces.append(rng.choice(["", "", " ", "\n", "  \n "]))
+            elif prev is not None and nxt is not None and _glue_ok(prev, nxt) and rng.random() < 0.25:
+                pieces.append("")
+            else:
+                pieces.append(rng.choice([" ", " ", "  ", "\t", "\n", " \n  ", "\n\n"]))
+            if skipped_comments and rng.random() < 0.2:
+                n, (lx, v, eol) = rng.choice(skipped_comments)
+                if not pieces[-1]:
+                    pieces.append(" ")
+                pieces.append(lx)
+                full_extra.append([n, v])
+                pieces.append(rng.choice(["\n", "\n ", " \n"]) if eol else rng.choice([" ", "\n", "  "]))
+        else:
+            if need_nl:
+                pieces.append("\n")
+            elif first:
+                pieces.append("")
+            elif prev is not None and nxt is not None and _glue_ok(prev, nxt) and rng.random() < 0.3:
+                pieces.append("")
+            else:
+                s = rng.choice([" ", " ", "  ", "\n"])
+                pieces.append(s)
+                if s != "\n":
+                    full_extra.append([space, s])
+        need_nl = False
+        return "".join(pieces)
+
+    prev = None
+    for i, (name, value, lexeme, eol) in enumerate(items):
+        full_extra = []
+        out.append(separator(prev, lexeme, i == 0))
+        full += full_extra
+        out.append(lexeme)
+        full.append([name, value])
+        need_nl = eol
+        prev = lexeme
+    # tail: trailing white space is stripped by the tokenizer; a skipped comment may follow
+    full_extra = []
+    if space_skipped:
+        out.append(separator(prev, None, not items))
+    elif rng.random() < 0.3:
+        out.append("\n")
+    full += full_extra
+    return "".join(out), full
+
+
+def _pick_items(rng, info, names):
+    """token names -> [[name, value, lexeme, eol]] (None when a name has no lexeme in this configuration)"""
+    items = []
+    for n in names:
+        cands = info["prod"].get(n)
+        if not cands:
+            return None
+        lx, v, eol = rng.choice(cands)
+        items.append([n, v, lx, eol])
+    return items
+
+
+def _confuse(rng, info, items):
+    """put a keyword where the grammar had its base token (and the other way round): the expected token changes
+    its name, so the text is usually no longer a sentence -- unless the keyword mapping is wrong"""
+    items = [list(x) for x in items]
+    pos = list(range(len(items)))
+    rng.shuffle(pos)
+    for i in pos:
+        name = items[i][0]
+        for base, kws in info["bases"].values():
+            if name == base and kws:
+                v = rng.choice(sorted(kws))
+                k = kws[v]
+                items[i] = [k, v, v, False]
+                return items
+            if name in kws.values():
+                plain = [e for e in info["prod"].get(base, [])]
+                if plain:
+                    lx, v, eol = rng.choice(plain)
+                    items[i] = [base, v, lx, eol]
+                    return items
+    return None
+
+
+def _tok_grammar(rng, info):
+    skip = set(info["skipset"])
+    avail = sorted(n for n in info["prod"] if n not in skip)
+    if not avail:
+        avail = ["WORD"]
+    r = rng.random()
+    if r < 0.3:
+        # any sequence of non-skipped tokens is a sentence: every tokenisation defect shows in a tree
+        return {"nts": ["E", "T"], "terms": avail, "prods": [["E", [["T", "E"], []]], ["T", [[t] for t in avail]]],
+                "start": "E", "smart": rng.random() < 0.5}
+    g = L.gen_grammar(rng, allow_leftrec=0.05)
+    if rng.random() < 0.4:
+        g = _mutate_for_c01(rng, g)
+    # rename the terminals a, b, ... to token names of the configuration; keywords and their base classes first
+    pref = []
+    for base, kws in info["bases"].values():
+        if base in avail and kws:
+            pref.append(base)
+            pref += [k for k in sorted(set(kws.values())) if k in avail]
+    rest = [n for n in avail if n not in pref]
+    rng.shuffle(rest)
+    if rng.random() < 0.7:
+        pool = list(dict.fromkeys(pref)) + rest
+    else:
+        pool = rest + list(dict.fromkeys(pref))
+    letters = list(g["terms"])
+    m = {t: pool[i % len(pool)] for i, t in enumerate(letters)}
+    g = dict(g)
+    g["prods"] = [[nt, [[m.get(s, s) for s in a] for a in alts]] for nt, alts in g["prods"]]
+    g["terms"] = sorted(set(m.values()))
+    return g
+
+
+def _gen_calls(rng, g, n_texts, extra_starts):
+    """every text once with the constructor's start symbol, then repeated / re-ordered calls, some with an explicit
+    start_symbol_name (user symbols; rarely a terminal, an unknown name, a helper name)"""
+    calls = [[i, None] for i in range(n_texts)]
+    nts = [nt for nt, _ in g["prods"]]
+    for i, s in extra_starts:
+        calls.append([i, s])
+    for _ in range(rng.randint(1, 6)):
+        if not n_texts:
+            break
+        i = rng.randrange(n_texts)
+        r = rng.random()
+        if r < 0.45:
+            s = None
+        elif r < 0.85:
+            s = rng.choice(nts)
+        elif r < 0.9:
+            s = rng.choice(g["terms"]) if g["terms"] else "NOPE"
+        elif r < 0.94:
+            s = "NOPE"
+        else:
+            s = rng.choice(nts) + "__S00"
+        calls.append([i, s])
+    # the first calls once more at the end, in reverse order: same parser object, same answers
+    calls += [list(c) for c in reversed(calls[:rng.randint(0, min(4, n_texts))])]
+    return calls
+
+
+def _gen_second(rng, g, calls):
+    if rng.random() < 0.5:
+        return None
+    nts = [nt for nt, _ in g["prods"]]
+    sub = [list(c) for c in calls if rng.random() < 0.6][:8]
+    return {"smart": (not g["smart"]) if rng.random() < 0.6 else g["smart"],
+            "start": g["start"] if rng.random() < 0.5 else rng.choice(nts), "calls": sub}
+
+
+def _gen_tok_session(rng):
+    cfg, info = _gen_tokcfg(rng)
+    g = _tok_grammar(rng, info)
+    texts, extra = [], []
+
+    def add_text(items, lexerr=False):
+        text, full = _render(rng, info, items)
+        toks = [t for t in full if t[0] not in set(info["skipset"])]
+        if lexerr:
+            cut = rng.randint(0, len(text))
+            # a character no pattern matches; not inside a comment / string: put it on a line of its own
+            text = text[:cut].rsplit("\n", 1)[0] + "\n" + rng.choice(["@", "é", "$", "~"]) + "\n" + text[cut:] if False else \
+                text + "\n" + rng.choice(["@", "é", "$", "~"]) + rng.choice(["", " a", "\n"])
+            toks = None
+        texts.append({"text": text, "toks": toks})
+        return len(texts) - 1
+
+    names_list = [[n for n, _ in inp] for inp in L.gen_inputs(rng, g, 7)]
+    for names in names_list:
+        items = _pick_items(rng, info, names)
+        if items is None:
+            continue
+        add_text(items, lexerr=rng.random() < 0.04)
+        if rng.random() < 0.5:
+            c = _confuse(rng, info, items)
+            if c is not None:
+                add_text(c)
+    # sentences of other symbols, parsed with start_symbol_name
+    nts = [nt for nt, _ in g["prods"]]
+    for _ in range(rng.randint(0, 2)):
+        s = rng.choice(nts)
+        g2 = dict(g)
+        g2["start"] = s
+        items = _pick_items(rng, info, L.gen_sentence(rng, g2))
+        if items is not None:
+            extra.append([add_text(items), s])
+    calls = _gen_calls(rng, g, len(texts), extra)
+    return {"kind": "session", "g": g, "cfg": cfg, "texts": texts, "calls": calls, "second": _gen_second(rng, g, calls)}
+
+
+def _gen_plain_session(rng, i):
+    if i % 4 == 3:
+        g = _gen_deep_prefix(rng)
+    else:
+        g = L.gen_grammar(rng, allow_leftrec=0.05)
+        if rng.random() < 0.5:
+            g = _mutate_for_c01(rng, g)
+    texts, extra = [], []
+    for inp in L.gen_inputs(rng, g, 8):
+        texts.append({"text": " ".join(v for _, v in inp), "toks": [list(x) for x in inp]})
+    nts = [nt for nt, _ in g["prods"]]
+    for _ in range(rng.randint(0, 3)):
+        s = rng.choice(nts)
+        g2 = dict(g)
+        g2["start"] = s
+        inp = [[t, t + (str(rng.randint(0, 99)) if rng.random() < 0.4 else "")] for t in L.gen_sentence(rng, g2)]
+        texts.append({"text": " ".join(v for _, v in inp), "toks": inp})
+        extra.append([len(texts) - 1, s])
+    calls = _gen_calls(rng, g, len(texts), extra)
+    return {"kind": "session", "g": g, "cfg": None, "texts": texts, "calls": calls, "second": _gen_second(rng, g, calls)}
+
+
+def _is_session(case):
+    return case.get("kind") == "session"
+
+
+def _helper_start_registered():
+    """trees rooted at a helper symbol obtained through parse(start_symbol_name='X__S00') are judged by the oracle only once
+    the finding is registered in KNOWN_FINDINGS.json (or VERIF_C01_HELPER_START=1); see c01.notes.md"""
+    global _known_cache
+    if os.environ.get("VERIF_C01_HELPER_START") == "1":
+        return True
+    if _known_cache is None:
+        try:
+            here = os.path.dirname(os.path.dirname(os.path.dirname(os.path.abspath(__file__))))
+            data = json.load(open(os.path.join(here, "KNOWN_FINDINGS.json")))
+            _known_cache = any(e.get("property") == ID and e.get("signature") == HELPER_START_SIG for e in data.get("findings", []))
+        except Exception:
+            _known_cache = False
+    return _known_cache
+
+
+_known_cache = None
+
+
+def _impl_session(case):
+    from ak import llparser
+    g = case["g"]
+    prods = {nt: [tuple(a) if a else None for a in alts] for nt, alts in g["prods"]}
+    cfg = case["cfg"]
+    kwargs = {}
+    if cfg is None:
+        tstr = L.tokenizer_str(g["terms"])
+    else:
+        tstr = _tok_str(cfg)
+        kwargs = {"synonyms": dict(cfg["syn"]) or None,
+                  "keywords": {(n, v): k for n, v, k in cfg["kw"]} or None,
+                  "span_matchers": _span_matchers(cfg) or None}
+        if cfg["skip"] is not None:
+            kwargs["skip_tokens"] = set(cfg["skip"])
+
+    def make(smart, start):
+        try:
+            return llparser.LLParser(tstr, productions=prods, start_symbol_name=start, smart_factorization=smart, **kwargs), None
+        except BaseException as e:  # noqa
+            if type(e).__name__ == "Hang":
+                raise
+            return None, SX.exc_name(e)
+
+    def run_calls(p, calls, out):
+        for i, s in calls:
+            kw = {} if s is None else {"start_symbol_name": s}
+            try:
+                t = p.parse(case["texts"][i]["text"], do_cleanup=False, **kw)
+                out.append(["ok", L.tree_obs(t)])
+            except llparser.Error as e:
+                out.append(["err", SX.exc_name(e)])
+            except BaseException as e:  # noqa
+                if type(e).__name__ == "Hang":
+                    out.append(["err", "Hang"])
+                    while len(out) < len(calls):
+                        out.append(["err", "NotRun"])
+                    return False
+                out.append(["err", SX.exc_name(e)])
+        return True
+
+    p, e = make(g["smart"], g["start"])
+    if p is None:
+        return {"ctor": ["err", e]}
+    out = {"ctor": ["ok"], "amb": bool(p.is_ambiguous()), "res": [],
+           "fg": [[s, [[r.symbol, list(r.production), r.sort_n] for r in rr]] for s, rr in p.prods_map.items()],
+           "sfxs": sorted(p._suffix_symbols), "terminals": sorted(p.terminals), "second": None}
+    if not run_calls(p, case["calls"], out["res"]):
+        out["hang_at"] = len(case["calls"])
+        return out
+    sec = case.get("second")
+    if sec:
+        p2, e2 = make(sec["smart"], sec["start"])
+        if p2 is None:
+            out["second"] = {"ctor": ["err", e2]}
+        else:
+            out["second"] = {"ctor": ["ok"], "amb": bool(p2.is_ambiguous()), "res": []}
+            run_calls(p2, sec["calls"], out["second"]["res"])
+    return out
+
+
+def _c_calls(calls):
+    items = [f"({SX.cnat(i)}, " + ("(@None (list Z))" if s is None else f"(Some {SX.cstr(s)})") + ")" for i, s in calls]
+    return SX.clist(items) if items else "(@nil (nat * option (list Z)))"
+
+
+def _c_list(items, ty):
+    items = list(items)
+    return SX.clist(items) if items else f"(@nil {ty})"
+
+
+def _c_pat(kind, arg):
+    if kind == "lit":
+        return f"PLit {SX.cstr(arg)}"
+    if kind == "range":
+        return f"PRange {ord(arg[0])} {ord(arg[1])}"
+    if kind == "space":
+        return "PSpace"
+    if kind == "eol":
+        return f"PEol {SX.cstr(arg)}"
+    if kind == "quoted":
+        return f"PQuoted {ord(arg)}"
+    raise ValueError(kind)
+
+
+def _coq_session(case):
+    g = case["g"]
+    cfg = case["cfg"]
+    ug = SX.clist(
+        "(" + SX.cstr(nt) + ", " + SX.clist(SX.clist(SX.cstr(s) for s in alt) if alt else "(@nil (list Z))" for alt in alts) + ")"
+        for nt, alts in g["prods"])
+    if cfg is None:
+        tk = "(@None (lexcfg * option (list (list Z))))"
+        terms = _c_list((SX.cstr(t) for t in g["terms"]), "(list Z)")
+        texts = _c_list(("(SToks " + _c_list((f"({SX.cstr(n)}, {SX.cstr(v)})" for n, v in t["toks"]), "(list Z * list Z)") + ")"
+                         for t in case["texts"]), "source")
+    else:
+        lex = _c_list((f"({SX.cstr(n)}, {_c_pat(k, a)})" for n, k, a in cfg["lex"]), "(list Z * pat)")
+        spans = _c_list((f"({SX.cstr(a)}, {SX.cstr(c)})" for a, c in cfg["spans"]), "(list Z * list Z)")
+        syn = _c_list((f"({SX.cstr(a)}, {SX.cstr(b)})" for a, b in cfg["syn"]), "(list Z * list Z)")
+        kw = _c_list((f"({SX.cstr(n)}, ({SX.cstr(v)}, {SX.cstr(k)}))" for n, v, k in cfg["kw"]), "(list Z * (list Z * list Z))")
+        skip = "(@None (list (list Z)))" if cfg["skip"] is None else "(Some " + _c_list((SX.cstr(s) for s in cfg["skip"]), "(list Z)") + ")"
+        tk = f"(Some (mkCfg {lex} {spans} {syn} {kw}, {skip}))"
+        terms = "(@nil (list Z))"
+        texts = _c_list((f"(SText {SX.cstr(t['text'])})" for t in case["texts"]), "source")
+    sec = case.get("second")
+    if sec:
+        second = f"(Some ({SX.cbool(sec['smart'])}, {SX.cstr(sec['start'])}, {_c_calls(sec['calls'])}))"
+    else:
+        second = "(@None (bool * list Z * list (nat * option (list Z))))"
+    return (f"Session {tk} {ug} {terms} {SX.cbool(g['smart'])} {SX.cstr(g['start'])} {L.FUEL}%nat {texts} "
+            f"{_c_calls(case['calls'])} {second}")
+
+
+def _sx_results(res):
+    return [SX.ok(L.tree_sx(r[1])) if r[0] == "ok" else SX.err(r[1]) for r in res]
+
+
+def _expected_session(case, obs):
+    if obs["ctor"][0] == "err":
+        return SX.dumps(SX.err(obs["ctor"][1]))
+    g = case["g"]
+    hyps = not py_fact_problems(g["prods"], g["start"], obs["fg"], obs["sfxs"], obs["terminals"])
+    # the tokens of every text as the GENERATOR knows them (the model tokenises the text itself)
+    toks = [SX.err("LexicalError") if t["toks"] is None else SX.ok([[SX.s(n), SX.s(v)] for n, v in t["toks"]])
+            for t in case["texts"]]
+    second = []
+    if obs.get("second"):
+        o2 = obs["second"]
+        second = SX.err(o2["ctor"][1]) if o2["ctor"][0] == "err" else [0, o2["amb"], _sx_results(o2["res"])]
+    return SX.dumps([0, obs["amb"], hyps, toks, _sx_results(obs["res"]), second])
+
+
+def _oracle_session(case, obs):
+    out = []
+    if obs["ctor"][0] != "ok":
+        return out
+    g = case["g"]
+    prods = {nt: alts for nt, alts in g["prods"]}
+    what = f"grammar {g['prods']} smart={g['smart']}" + (f" tokenizer {json.dumps(case['cfg'])}" if case["cfg"] else "")
+
+    def judge(calls, res, ctor_start, label):
+        for (i, s), r in zip(calls, res):
+            if r[0] != "ok":
+                continue
+            start = ctor_start if s is None else s
+            t = case["texts"][i]
+            if "__" in start:
+                if _helper_start_registered():
+                    out.append((HELPER_START_SIG, f"{what}: parse({t['text']!r}, start_symbol_name={start!r}) returned a tree rooted at {r[1][1]!r}"))
+                continue
+            if t["toks"] is None:
+                out.append(("invalid-tree", f"{what}: {label} parse({t['text']!r}) returned a tree although the text contains a character no token matches"))
+                continue
+            probs = L.check_derivation(prods, start, r[1], t["toks"])
+            if probs:
+                out.append(("invalid-tree", f"{what}: {label} call parse({t['text']!r}, start_symbol_name={s!r}): " + "; ".join(probs[:3])))
+    judge(case["calls"], obs["res"], g["start"], "first parser,")
+    if obs.get("second") and obs["second"]["ctor"][0] == "ok":
+        judge(case["second"]["calls"], obs["second"]["res"], case["second"]["start"], "second parser (same productions object),")
+    probs = py_fact_problems(g["prods"], g["start"], obs["fg"], obs["sfxs"], obs["terminals"])
+    if probs:
+        out.append(("factorization-invalid", f"{what}: prods_map {[(s, [r[1] for r in rr]) for s, rr in obs['fg']]} "
+                    f"suffix symbols {obs['sfxs']}: " + "; ".join(probs[:3])))
+    return out
+
+
+def _shrink_session(case):
+    calls = case["calls"]
+    if case.get("second"):
+        yield dict(case, second=None)
+        sc = case["second"]["calls"]
+        if len(sc) > 1:
+            for j in range(len(sc)):
+                yield dict(case, second=dict(case["second"], calls=sc[:j] + sc[j + 1:]))
+    if len(calls) > 1:
+        for j in range(len(calls)):
+            yield dict(case, calls=calls[:j] + calls[j + 1:])
+    g = case["g"]
+    for i, (nt, alts) in enumerate(g["prods"]):
+        if len(alts) > 1:
+            for j in range(len(alts)):
+                g2 = dict(g)
+                g2["prods"] = [list(x) for x in g["prods"]]
+                g2["prods"][i] = [nt, alts[:j] + alts[j + 1:]]
+                yield dict(case, g=g2)
+    cfg = case["cfg"]
+    if cfg:
+        for key in ("kw", "syn"):
+            for j in range(len(cfg[key])):
+                c2 = dict(cfg)
+                c2[key] = cfg[key][:j] + cfg[key][j + 1:]
+                yield dict(case, cfg=c2)
+
 
 
 def kind(case):
